@@ -196,15 +196,20 @@ func FromSlice[T comparable](data []T, comp gogu.CompFn[T]) *Heap[T] {
 
 // Merge joins two heaps into a new one preserving the original ones.
 func (h *Heap[T]) Merge(h2 *Heap[T]) *Heap[T] {
+	// Each source heap is read under its own lock, one after the other,
+	// so that merging a heap with itself or in opposite orders cannot deadlock.
+	h.mu.RLock()
 	newHeap := NewHeap(h.comp)
-
 	for i := 0; i < h.size(); i++ {
 		newHeap.Push(h.data[i])
 	}
+	h.mu.RUnlock()
 
+	h2.mu.RLock()
 	for i := 0; i < h2.size(); i++ {
 		newHeap.Push(h2.data[i])
 	}
+	h2.mu.RUnlock()
 
 	return newHeap
 }
@@ -212,17 +217,21 @@ func (h *Heap[T]) Merge(h2 *Heap[T]) *Heap[T] {
 // Meld merge two heaps into a new one containing all the
 // elements of both and destroying the original ones.
 func (h *Heap[T]) Meld(h2 *Heap[T]) *Heap[T] {
+	// Each source heap is emptied under its own lock, one after the other.
+	h.mu.Lock()
 	newHeap := NewHeap(h.comp)
-
 	for i := 0; i < h.size(); i++ {
 		newHeap.Push(h.data[i])
 	}
+	h.data = nil
+	h.mu.Unlock()
 
+	h2.mu.Lock()
 	for i := 0; i < h2.size(); i++ {
 		newHeap.Push(h2.data[i])
 	}
-	h.data = nil
 	h2.data = nil
+	h2.mu.Unlock()
 
 	return newHeap
 }
